@@ -85,17 +85,115 @@ def run(ctx):
             kind="correspondence-broken", broken="Corr/cases_C11_*.v: Model/ExportSM.v vs real export entry points",
             case=breaks[0]["case"], model=breaks[0]["model"], implementation=breaks[0]["implementation"], count=len(breaks)), no_input=True)
 
+    gen = generated_tests(ctx)
+
     # output_path(): the documented rule, on a second universe of export_to forms (the hook
     # expands items in-process; the generated output_path() body is checked against the rule)
     sm.cleanup()
     ctx.finish_proof()
     ctx.coverage.update({
-        "evaluations": len(cases),
+        "evaluations": len(cases) + gen["types"],
         "distinct_nontrivial": nontrivial,
         "rule": "every type of the rt universe (%d, incl. cycles C<->D, dependencies only through generic arguments G<C, A>, through inlined/flattened fields U1/U2, through a parameter default G<_, F>, non-exportable roots Vec<A>/Option<B>/tuples/maps) as root of export_all under %d TS_RS_EXPORT_DIR settings x {empty, pre-existing unrelated files}, of export_all_to under %d directories, and of export; snapshot of the real tree before/after; non-trivial = more than one file expected" % (
             len(U.types), len(ENVS), len(DIRS)),
         "samples": [dict(case=cases[k], results=real[k][0], files=[p for p, _ in real[k][1]]) for k in (3, len(cases) // 2)],
         "correspondence": {"histories": len(cases), "suspects": nsus, "confirmed_breaks": len(breaks)},
         "oracle": {"violations": len(viol), "failed_exports": sum(1 for r in real if r[0] != "O")},
+        "generated_export_tests": gen,
     })
     ctx.assumptions += ["file system modelled as pure state; the real side is a snapshot of a real directory before/after"]
+
+
+# ---- the test functions `#[ts(export)]` generates (macros/src/lib.rs: generate_export_test) -----------------
+# (ident, number of type parameters, item).  Every way a dependency can be reached, and types for which the
+# derive records no dependency at the time the test is generated.
+GEN_TYPES = [
+    ("Leaf", 0, "#[derive(TS)] #[ts(export)] pub struct Leaf { a: i32 }"),
+    ("Far", 0, '#[derive(TS)] #[ts(export, export_to = "deep/nest/")] pub struct Far { a: i32 }'),
+    ("Marker", 0, '#[derive(TS)] #[ts(export, export_to = "m/marker.ts")] pub struct Marker;'),
+    ("ByField", 0, "#[derive(TS)] #[ts(export)] pub struct ByField { l: Leaf, f: Vec<Far> }"),
+    ("ByInline", 0, "#[derive(TS)] #[ts(export)] pub struct ByInline { #[ts(inline)] b: ByField }"),
+    ("ByFlatten", 0, "#[derive(TS)] #[ts(export)] pub struct ByFlatten { #[ts(flatten)] b: ByField, x: i32 }"),
+    ("ByAs", 0, '#[derive(TS)] #[ts(export)] pub struct ByAs { #[ts(as = "Vec<Marker>")] a: i32 }'),
+    ("Wrapper", 1, "#[derive(TS)] #[ts(export)] pub struct Wrapper<T> { t: T }"),
+    ("ViaArg", 0, "#[derive(TS)] #[ts(export)] pub struct ViaArg { w: Wrapper<Far>, #[ts(inline)] i: Wrapper<Vec<Marker>> }"),
+    ("OnlyDefault", 1, "#[derive(TS)] #[ts(export)] pub struct OnlyDefault<T = Far> { #[ts(skip)] t: std::marker::PhantomData<T> }"),
+    ("OnlyDefault2", 2, '#[derive(TS)] #[ts(export)] pub struct OnlyDefault2<T = Marker, U = Wrapper<Leaf>> { #[ts(type = "string")] s: i32, #[ts(skip)] p: std::marker::PhantomData<(T, U)> }'),
+    ("DefaultAndField", 1, "#[derive(TS)] #[ts(export)] pub struct DefaultAndField<T = Leaf> { t: T, o: Option<Far> }"),
+    ("CycA", 0, "#[derive(TS)] #[ts(export)] pub struct CycA { b: Vec<CycB> }"),
+    ("CycB", 0, "#[derive(TS)] #[ts(export)] pub struct CycB { a: Option<Box<CycA>>, m: Marker }"),
+    ("En", 0, "#[derive(TS)] #[ts(export)] pub enum En { A(Leaf), B { f: Far }, #[ts(skip)] C(i32) }"),
+    ("EnDefault", 1, "#[derive(TS)] #[ts(export)] pub enum EnDefault<T = Marker> { A, #[ts(skip)] B(std::marker::PhantomData<T>) }"),
+    ("Concrete", 1, "#[derive(TS)] #[ts(export, concrete(T = Far))] pub struct Concrete<T> { t: T }"),
+    ("Unit", 0, "#[derive(TS)] #[ts(export)] pub struct Unit;"),
+    ("NewtypeDefault", 1, '#[derive(TS)] #[ts(export)] pub struct NewtypeDefault<T = Far>(#[ts(type = "number")] std::marker::PhantomData<T>);'),
+]
+
+
+def generated_tests(ctx):
+    """Every generated `export_bindings_*` test, run in a process of its own under TS_RS_EXPORT_DIR, must leave
+    the tree that export_all_to leaves for the same (generics-erased) type, and that tree must be closed."""
+    import shutil
+    import subprocess
+    import tsmini
+    concrete = {"Concrete"}
+    arms = []
+    for ident, n, _ in GEN_TYPES:
+        args = "" if n == 0 or ident in concrete else "::<%s>" % ", ".join(["ts_rs::Dummy"] * n)
+        if ident in concrete:
+            args = "::<Far>"
+        arms.append('        "%s" => %s%s::export_all_to(&dir).unwrap(),' % (ident, ident, args))
+    src = ("#![allow(dead_code)]\nuse ts_rs::TS;\n" + "\n".join(i for _, _, i in GEN_TYPES) + """
+#[cfg(test)]
+#[test]
+fn oracle() {
+    let ty = std::env::var("ORACLE").unwrap();
+    let dir = std::env::var("ORACLE_DIR").unwrap();
+    match ty.as_str() {
+%s
+        _ => panic!("unknown type"),
+    }
+}
+""" % "\n".join(arms))
+    exe = vlib.build_test_crate("c11_tests", vlib.harness_toml("c11_tests", deps=("ts-rs",)), {"src/lib.rs": src})
+    root = "/tmp/v/c11t"
+    shutil.rmtree(root, ignore_errors=True)
+    os.makedirs(root)
+
+    def tree(d):
+        out = {}
+        for dp, _, fs in os.walk(d):
+            for f in fs:
+                q = os.path.join(dp, f)
+                out[os.path.relpath(q, d)] = open(q, encoding="utf-8").read()
+        return out
+
+    names = {i for i, _, _ in GEN_TYPES}
+    viol, files = [], 0
+    for ident, n, item in GEN_TYPES:
+        a, b = os.path.join(root, ident, "a"), os.path.join(root, ident, "b")
+        os.makedirs(a)
+        os.makedirs(b)
+        env = dict(os.environ, TS_RS_EXPORT_DIR=a)
+        p1 = subprocess.run([exe, "--exact", "export_bindings_%s" % ident.lower(), "--test-threads", "1"], cwd=os.path.join(root, ident),
+                            env=env, capture_output=True, text=True, timeout=600)
+        env2 = dict(os.environ, ORACLE=ident, ORACLE_DIR=b)
+        p2 = subprocess.run([exe, "--exact", "oracle", "--test-threads", "1"], cwd=os.path.join(root, ident), env=env2,
+                            capture_output=True, text=True, timeout=600)
+        if "1 passed" not in p1.stdout or "1 passed" not in p2.stdout:
+            raise vlib.HarnessError("generated test of %s did not run: %s | %s" % (ident, (p1.stdout + p1.stderr)[-800:], (p2.stdout + p2.stderr)[-800:]))
+        ta, tb = tree(a), tree(b)
+        files += len(ta)
+        probs = []
+        for rel, text in sorted(ta.items()):
+            fp = os.path.join(a, rel)
+            probs += ["%s: %s" % (rel, q) for q in tsmini.closed_module(fp, text, names, lambda q: open(q, encoding="utf-8").read() if os.path.exists(q) else None)]
+        if ta != tb or probs:
+            viol.append(dict(kind="property-violated", what="the generated test export_bindings_%s does not write the root's and its dependencies' files" % ident.lower(),
+                             item=item, written_by_generated_test=sorted(ta), written_by_export_all_to=sorted(tb),
+                             differing=sorted(k for k in set(ta) | set(tb) if ta.get(k) != tb.get(k)), not_closed=probs))
+    shutil.rmtree(root, ignore_errors=True)
+    for v in viol[:2]:
+        ctx.fail(v["what"], v)
+    return {"types": len(GEN_TYPES), "files": files, "violations": len(viol),
+            "rule": "each generated export_bindings_* test run in its own process under TS_RS_EXPORT_DIR: the tree equals what export_all_to leaves for the generics-erased type, and every import in it resolves to a written file declaring the name (dependencies through fields, generic arguments, inline, flatten, `as`, parameter defaults only, cycles, concrete parameters)"}
